@@ -2,7 +2,7 @@
 
 B1  TLC explores MC_ChannelSet: every launch list (every order) of <= MaxLaunch of 15 candidate channels sitting on
     band edges, one MHz beyond them, in the C/L gap, touching / overlapping by one MHz, baud = slot / one MHz wider,
-    on four paths (single-band, multi-band, mixed, no amplifier), with Survives, FilterKeepsExactlyCommon,
+    on six paths (single-band, multi-band, mixed, no amplifier, wide single band before / after a multi-band amplifier), with Survives, FilterKeepsExactlyCommon,
     InFrequencyOrder, OwnAttributes, OrderIrrelevant, RejectOverlap, RejectBaudWiderThanSlot, AcceptValid.
 B2  every walk TLC emits is replayed on real objects: create_arbitrary_spectral_information and
     carriers_to_spectral_information (SpectrumError exactly when the model rejects, else the model's sorted list with
@@ -25,13 +25,14 @@ from harness.ledger_util import run_b3
 
 BOUNDS = {   # tier -> (MaxLaunch for B1 and launch-level replay, longest list replayed through real elements)
     'quick': (3, 2),
-    'thorough': (3, 3),
+    'thorough': (4, 3),
 }
 MODEL_BANDS = {   # must be the constants of MC_ChannelSet (checked against the real equipment before replaying)
     'multi': [[-1875000, 3025000], [-6600000, -3000000]],
     'test_fixed_gain': [[-1825000, 3025000]],
     'std_low_gain_bis': [[-1850000, 3050000]],
     'default': [-1800000, 2000000],
+    'wide_band': [[-7100000, 3100000]],
 }
 
 
@@ -87,13 +88,14 @@ def build_carriers(inp):
 
 
 class Bench:
-    """real elements of the designed shipped multi-band network arranged as the four model paths"""
+    """real elements of the designed multi-band example (variant with a wide single-band line, see
+    propagation_util.NETWORKS) arranged as the six model paths"""
 
     def __init__(self):
         from gnpy.core.elements import Fiber, Edfa, Multiband_amplifier
-        loaded = pu.network('multiband')
+        loaded = pu.network('multiband-wide')
         if loaded is None:
-            raise Machinery(f'multiband example does not load: {pu.NOT_LOADED}')
+            raise Machinery(f'multiband example (wide-band variant) does not load: {pu.NOT_LOADED}')
         net, self.eq, _, _ = loaded
         by = {n.uid: n for n in net.nodes()}
         multi = by['east edfa in Site_A to Site_B']
@@ -106,12 +108,14 @@ class Bench:
         def bands(el):
             return [[pu.mhz(b['f_min']), pu.mhz(b['f_max'])] for b in el.params.bands]
         si = self.eq['SI']['default']
+        wide = by['east edfa in Site_L to Site_A']
         real = dict(multi=bands(multi), test_fixed_gain=bands(fixed), std_low_gain_bis=bands(low),
-                    default=[pu.mhz(si.f_min), pu.mhz(si.f_max)])
+                    default=[pu.mhz(si.f_min), pu.mhz(si.f_max)], wide_band=bands(wide))
         if real != MODEL_BANDS or bands(multi2) != MODEL_BANDS['multi'] or \
                 [list(pu.mhz(a.params.bands[0][k]) for k in ('f_min', 'f_max')) for a in multi.amplifiers.values()] != MODEL_BANDS['multi']:
             raise Machinery(f'band constants of MC_ChannelSet differ from the shipped library: {real}')
-        self.paths = {1: [fixed, fiber, low], 2: [multi, fiber, multi2], 3: [multi, fiber, low], 4: [fiber]}
+        self.paths = {1: [fixed, fiber, low], 2: [multi, fiber, multi2], 3: [multi, fiber, low], 4: [fiber],
+                      5: [wide, fiber, multi], 6: [multi, fiber, wide]}
 
 
 def crossing_failure(el, e):
